@@ -14,7 +14,7 @@ variable {π β : Type} {h : Hist π}
 /-! ### ids of pseudo builds -/
 
 theorem finish_fakeCounter {pl : Plug π β} {head : Nat} {st st' : St β} {c : Nat} {cm : Commit π} {fr : List Nat}
-    (hf : finish pl head st c cm fr = .ok st') : st'.rp.fakeCounter = st.rp.fakeCounter := by
+    {rel : List Nat} (hf : finish pl head rel st c cm fr = .ok st') : st'.rp.fakeCounter = st.rp.fakeCounter := by
   cases finish_cases hf with
   | irrelevant => rfl
   | plain => simp only [Repo.addPlain]; split <;> rfl
@@ -23,7 +23,7 @@ theorem finish_fakeCounter {pl : Plug π β} {head : Nat} {st st' : St β} {c : 
   | build bpar new pb pbs bumps bn na => rfl
 
 theorem visit_fakeCounter (hT : h.Topo) {pl : Plug π β} {head : Nat} {fuel : Nat} {s s' : St β}
-    {acc acc' : List Nat} {c : Nat} (hv : visit h pl head fuel (s, acc) c = .ok (s', acc')) :
+    {acc acc' : List Nat} {c : Nat} {rel : List Nat} (hv : visit h pl head fuel rel (s, acc) c = .ok (s', acc')) :
     s'.rp.fakeCounter = s.rp.fakeCounter := by
   have H : VisitHyps h pl head (fun _ => True) (fun _ _ _ => True)
       (fun s s' => s'.rp.fakeCounter = s.rp.fakeCounter) (fun _ => True) :=
@@ -68,9 +68,9 @@ theorem endBranch_fake {pl : Plug π β} {first : Bool} {b : Branch} {st : St β
           exact absurd hnone (hcur bd hbd)
 
 /-- pseudo builds have ids from `_brcommits_counter` on -/
-theorem rgraph_fakes (hT : h.Topo) {pl : Plug π β} {g : Graph β} (hg : rgraph h pl = .ok g) :
+theorem rgraph_fakes (hT : h.Topo) {pl : Plug π β} {g : Graph β} {mt : Option Nat} (hg : rgraphNW h pl mt = .ok g) :
     ∀ rb ∈ g.all, ∀ bd ∈ rb.rbuilds, bd.rcommit = none → Gen.Ghist.fakeStart ≤ bd.iid := by
-  unfold rgraph at hg
+  unfold rgraphNW at hg
   split at hg
   · cases hg
   · rename_i rp rbs hr
@@ -82,7 +82,7 @@ theorem rgraph_fakes (hT : h.Topo) {pl : Plug π β} {g : Graph β} (hg : rgraph
           (∀ bd ∈ rb.rbuilds, bd.rcommit = none → Gen.Ghist.fakeStart ≤ bd.iid) := by
       intro pre rp b rp' rb ⟨inv, hfc⟩ hrb
       obtain ⟨h1, _, _⟩ := readBranch_sem hT inv hrb
-      obtain ⟨st, rheads, hv, he⟩ := readBranch_inv hrb
+      obtain ⟨hc0, st, rheads, hhc0, hv, he⟩ := readBranch_inv hrb
       have hfc1 := visit_fakeCounter hT hv
       have hn := visit_buildsNormal hT inv.normal hv
       obtain ⟨h2, h3⟩ := endBranch_fake he hn
@@ -133,11 +133,11 @@ theorem exists_nearest (hT : h.Topo) {rcs : List RC} {rb : RBranch β} (e : Nat)
       exact ⟨bm, hbm, em, h10, h11, h12, h8.trans h13, h14⟩
 
 /-- `findBuild` finds the build with a build commit that carries the id -/
-theorem findBuild_normal (hT : h.Topo) {pl : Plug π β} {g : Graph β} (hg : rgraph h pl = .ok g)
+theorem findBuild_normal (hT : h.Topo) {pl : Plug π β} {g : Graph β} {mt : Option Nat} (hg : rgraphNW h pl mt = .ok g)
     (hlen : g.rcs.length ≤ Gen.Ghist.fakeStart) {rb : RBranch β} (hrb : rb ∈ g.all) {bd : RB β}
     (hbd : bd ∈ rb.rbuilds) (hn : bd.rcommit = some bd.iid) : g.findBuild bd.iid = some bd := by
   have hfacts := rgraph_facts hT hg
-  have hbok := rgraph_bumpsOk hT hg
+  have hbok := rgraph_bumpsOk hT (RelInv.trivial h pl) hg
   have hfk := rgraph_fakes hT hg
   obtain ⟨hl, hsem⟩ := rgraph_sem hT hg
   have hlt : ∀ rb' ∈ g.all, ∀ b' ∈ rb'.rbuilds, b'.rcommit.isSome = true → b'.iid < g.rcs.length := by
@@ -171,7 +171,7 @@ theorem findBuild_normal (hT : h.Topo) {pl : Plug π β} {g : Graph β} (hg : rg
     rw [Option.some.inj e1]
 
 /-- reachability through parent builds between two builds of one branch is git ancestry between their commits -/
-theorem rbAnc_iff_anc (hT : h.Topo) {pl : Plug π β} {g : Graph β} (hg : rgraph h pl = .ok g)
+theorem rbAnc_iff_anc (hT : h.Topo) {pl : Plug π β} {g : Graph β} {mt : Option Nat} (hg : rgraphNW h pl mt = .ok g)
     (hlen : g.rcs.length ≤ Gen.Ghist.fakeStart) {rb : RBranch β} (hrb : rb ∈ g.all) :
     ∀ (et : Nat) (bx bt : RB β) (ex : Nat), bx ∈ rb.rbuilds → bt ∈ rb.rbuilds → BuildAt g.rcs bx ex →
       BuildAt g.rcs bt et → (RbAnc g bx.iid bt.iid ↔ Anc h ex et) := by
